@@ -200,6 +200,12 @@ V("c17-benign-rename", "C17", "benign", "", "locals renamed, second pull bound t
   "            out = decompressor.decompress(s, MAX_SIZE)\n            more = decompressor.decompress(decompressor.unconsumed_tail, 1)\n            value = out\n            exceeded = bool(more)")
 
 # ------------------------------------------------------------------------------------------------ C15
+V("c14-keyid-error-swallowed", "C14", "break", "R14.20", "JWE JSON key resolution skips a recipient whose kid names no key (seed C14-u)",
+  "jwe.py", "        key = guess_key(private_key, recipient)\n",
+  "        try:\n            key = guess_key(private_key, recipient)\n        except Exception:\n            continue\n")
+V("c14-keyid-error-reraised", "C14", "benign", "R14.20", "JWE JSON key resolution under a handler that re-raises unconditionally",
+  "jwe.py", "        key = guess_key(private_key, recipient)\n",
+  "        try:\n            key = guess_key(private_key, recipient)\n        except Exception:\n            raise\n")
 V("c15-drop-check-header-validate", "C15", "break", "R15.1", "check_header removed from validate_compact",
   "jws.py", "    headers = obj.headers()\n    registry.check_header(headers)\n    key: Key = guess_key(public_key, obj)", "    headers = obj.headers()\n    key: Key = guess_key(public_key, obj)")
 V("c15-drop-check-header-sign-member", "C15", "break", "R15.1", "check_header removed from JSON signing",
